@@ -58,6 +58,11 @@ class DiagAnalysis:
                 ts = self.prog.call_targets(f, n)
                 if ts and all(self.always_emits(t) for t in ts):
                     return True
+        if k == "CXXOperatorCallExpr" and n.get("op") == "()":
+            # a local lambda that always prints (a shared "report the failure" helper)
+            ts = self.callee_targets(f, n)
+            if ts and all(self.always_emits(t) for t in ts):
+                return True
         return False
 
     def always_emits(self, t, depth=0):
@@ -443,6 +448,61 @@ class DiagAnalysis:
             return st
         return PathStates(f, "N", elem_tf, edge_tf, guards=g), errs
 
+    def _pessimistic_default_ok(self, f, node, kind, mode, errs, good):
+        """`int status = 1; ... status = f(); ... return status;`: a failing value stored early is not itself a
+        failure - what matters is the state in which the variable is *returned* while it may still hold that
+        value.  Product typestate (diagnostic state, what the variable holds) evaluated at every return of it."""
+        from .flow import PathStates
+        if node.get("k") == "VarDecl":
+            d = node["d"]
+        else:
+            d = (strip_all(node["c"][0]) or {}).get("d")
+        if d is None:
+            return False
+        vk = "bool" if kind in ("bool", "pairbool") else "status"
+        base_ps, _ = self.path_states(f, mode)
+        me = self
+
+        def val_of(rhs):
+            rr = strip_all(rhs)
+            v = folded(rhs)
+            if v is not None:
+                return "fail" if me._is_fail_const(v, vk) else "ok"
+            if rr is not None and is_call(rr) and rr.get("k") != "CXXConstructExpr":
+                c = me.covered_call(f, rr, mode, errs)
+                return "ok" if (c == "E" or (c == "S" and mode == "errset")) else "fail"
+            return "fail"
+
+        def elem_tf(n, t):
+            dg, val = t
+            dg = base_ps.elem_tf(n, dg)
+            if n.get("k") == "DeclStmt":
+                for v in n.get("c", []):
+                    if v.get("k") == "VarDecl" and v.get("d") == d and v.get("c"):
+                        val = val_of(v["c"][0])
+            elif n.get("k") == "VarDecl" and n.get("d") == d and n.get("c"):
+                val = val_of(n["c"][0])
+            elif n.get("k") == "BinaryOperator" and n.get("op") == "=" and (strip_all(n["c"][0]) or {}).get("d") == d:
+                val = val_of(n["c"][1])
+            return (dg, val)
+
+        def edge_tf(facts_, t):
+            dg, val = t
+            dg2 = base_ps.edge_tf(facts_, dg) if base_ps.edge_tf else dg
+            return (dg2, val)
+        ps = PathStates(f, ("N", "ok"), elem_tf, edge_tf, guards=base_ps.g)
+        for n in f.walk():
+            if n.get("k") == "ReturnStmt" and n.get("c"):
+                e = strip_all(n["c"][0])
+                if e is not None and e.get("k") == "DeclRefExpr" and e.get("d") == d:
+                    sts = ps.before(n)
+                    if sts is None:
+                        continue
+                    for dg, val in sts:
+                        if val == "fail" and dg not in good:
+                            return False
+        return True
+
     def _classify(self, f, mode, ignore=frozenset()):
         kind = self.failure_kind(f)
         if kind is None:
@@ -483,6 +543,9 @@ class DiagAnalysis:
             if isinstance(how, tuple) and how[0] == "param":
                 continue   # the caller's obligation
             if how == "unknown":
+                continue
+            if not st <= good and node.get("k") in ("VarDecl", "BinaryOperator") and \
+                    self._pessimistic_default_ok(f, node, kind, mode, errs, good):
                 continue
             if not st <= good:
                 return (False, "%s can fail at %s without having written a diagnostic%s" %
